@@ -205,6 +205,10 @@ pub struct TuiCase {
     pub traces: Vec<TraceSetup>,
     pub ui: UiSetup,
     pub ops: Vec<Op>,
+    /// run the case on a fresh thread whose `HashMap` seeds derive from this value (`hrand`);
+    /// only set in stored demonstrations, generated cases leave it out
+    #[serde(default, skip_serializing_if = "Option::is_none")]
+    pub hash_keys: Option<u64>,
 }
 
 // ---------------------------------------------------------------------------------------------
@@ -351,8 +355,30 @@ pub fn start(c: &TuiCase) -> Result<Session, Fail> {
     let file: ConfigFile = toml::from_str("").expect("empty config");
     let cfg = build_config(args, file, &Privilege::new(true, false), 777).map_err(|e| Fail::new("tui-setup", format!("configuration rejected: {e}")))?;
     let tui_config = make_tui_config(&cfg, "en".to_string());
-    let resolver = DnsResolver::start(trippy_dns::Config::new(cfg.dns_resolve_method, cfg.addr_family, cfg.dns_timeout, cfg.dns_ttl))
-        .map_err(|e| Fail::new("tui-setup", format!("resolver: {e}")))?;
+    // One resolver (and its worker thread) per shard thread, not per case: every name a case can
+    // display is seeded below, so no lookup is queued and nothing of one case outlives it.  The
+    // exception is a trace whose warm-up run leaves simulated hop addresses behind (fatal
+    // traces): those cases get a resolver of their own.
+    thread_local! {
+        static SHARED: std::cell::RefCell<Option<DnsResolver>> = const { std::cell::RefCell::new(None) };
+    }
+    let new_resolver = || {
+        DnsResolver::start(trippy_dns::Config::new(cfg.dns_resolve_method, cfg.addr_family, cfg.dns_timeout, cfg.dns_ttl))
+            .map_err(|e| Fail::new("tui-setup", format!("resolver: {e}")))
+    };
+    let resolver = if c.traces.iter().any(|t| t.fatal) {
+        new_resolver()?
+    } else {
+        let cached = SHARED.with(|s| s.borrow().clone());
+        match cached {
+            Some(r) => r,
+            None => {
+                let r = new_resolver()?;
+                SHARED.with(|s| *s.borrow_mut() = Some(r.clone()));
+                r
+            }
+        }
+    };
     let geoip_lookup = GeoIpLookup::from_file(mmdb_path(), "en".to_string()).map_err(|e| Fail::new("tui-setup", format!("mmdb fixture rejected: {e}")))?;
     let mut tracers = vec![];
     let mut infos = vec![];
@@ -430,10 +456,6 @@ impl Session {
                 Ok(())
             }
             Op::Key(cmd) => {
-                // recorded finding (ratatui layout solver): never show more than 12 columns
-                if *cmd == Cmd::ToggleChart && self.app.show_settings && !self.app.show_help && self.app.tui_config.tui_columns.columns().count() >= 12 {
-                    return Err(Fail::new("excluded:13th-column", "skipped"));
-                }
                 let app = &mut self.app;
                 let r = catch(|| dispatch(app, *cmd)).map_err(|p| Fail::new(format!("command:{cmd:?}:{}", panic_sig(&p)), format!("handling {cmd:?} panicked: {p}")));
                 if matches!(cmd, Cmd::ClearDnsCache | Cmd::ToggleAsInfo) {
